@@ -336,6 +336,11 @@ def make_subclasses():
             """Sets the limit."""
             self._limit = new_limit
 
+        def opt(self, n: Optional[int] = None, ratio: Optional[float] = None,
+                label: Optional[str] = None) -> str:
+            """Parameters annotated Optional[...] (the spelling older code bases use)."""
+            return f"opt {n!r} {ratio!r} {label!r}"
+
         def tagged(self, from_: int, type_: str = "t", *, class_: str = "c") -> str:
             """Parameters with a trailing underscore (PEP 8 names for keywords)."""
             return f"tagged {from_!r} {type_!r} {class_!r}"
